@@ -285,6 +285,100 @@ pub fn run_hist(ctx: &mut Ctx, h: &Hist) -> Result<(), String> {
     }
 }
 
+// ------------------------------------------------------------------ a kick racing with a deactivation is retained
+
+#[derive(Serialize, Deserialize, Debug, Clone)]
+pub struct RaceCase {
+    pub rwlock: bool,
+    /// true: RESET_DEVICE + SET_FEATURES(no PROTOCOL_FEATURES) as the deactivate/activate pair, else SET_VRING_ENABLE 0/1
+    pub reset: bool,
+    pub rounds: u32,
+}
+
+/// Each round: guest kick, then — without waiting for the worker — the deactivating message (acknowledged), a barrier,
+/// the activating message, a barrier.  Wherever the worker was when the ring was deactivated, the kick is either
+/// handled before the deactivation took effect or retained and handled after the activation: at least one handler
+/// entry per round.  (The schedule is the scheduler's; the requirement holds for every schedule.  C12 enumerates the
+/// schedules deterministically.)
+fn run_race_generic<V: VringT<GM> + Clone + Send + Sync + 'static>(ctx: &mut Ctx, c: &RaceCase) -> Result<(), String> {
+    let mut fx: Fx<V> = Fx::new(BeCfg { num_queues: 1, ..Default::default() }).map_err(|e| format!("fixture: {e}"))?;
+    fx.connect().map_err(|e| format!("fixture: {e}"))?;
+    let cl = RawClient::new(fx.peer.as_ref().unwrap().try_clone().unwrap());
+    let pfbit = if c.reset { 0 } else { spec::VIRTIO_F_PROTOCOL_FEATURES };
+    let (b, _) = cl.get(fe::GET_FEATURES, &[], &[]).map_err(|e| format!("negotiation: {e}"))?;
+    let feats = spec::rd_u64(&b, 0);
+    let (b, _) = cl.get(fe::GET_PROTOCOL_FEATURES, &[], &[]).map_err(|e| format!("negotiation: {e}"))?;
+    cl.send(fe::SET_PROTOCOL_FEATURES, false, &b[..8], &[]).map_err(|e| format!("negotiation: {e}"))?;
+    let setf = spec::b_u64((feats & (1 << 32)) | pfbit);
+    let k = new_eventfd();
+    let mut setup: Vec<(u32, Vec<u8>, Vec<i32>)> = vec![(fe::SET_FEATURES, setf.clone(), vec![]), (fe::SET_VRING_KICK, spec::b_u64(0), vec![k.as_raw_fd()])];
+    if !c.reset {
+        setup.push((fe::SET_VRING_ENABLE, spec::b_vring_state(0, 1), vec![]));
+    }
+    for (code, body, fds) in setup {
+        if cl.ack(code, &body, &fds).map_err(|e| format!("setup: {e}"))? != 0 {
+            return Err(format!("setup message {code} refused"));
+        }
+    }
+    fx.barrier()?;
+    let mut seen = fx.be.events().len();
+    let mut before_deactivation = 0u32;
+    for round in 0..c.rounds {
+        // the kick is raised just before, or just after, the deactivating message is written (alternating)
+        let kick_first = round % 2 == 0;
+        if kick_first {
+            k.write(1).map_err(|e| e.to_string())?;
+        }
+        let (off, on) = if c.reset {
+            ((fe::RESET_DEVICE, vec![]), (fe::SET_FEATURES, setf.clone()))
+        } else {
+            ((fe::SET_VRING_ENABLE, spec::b_vring_state(0, 0)), (fe::SET_VRING_ENABLE, spec::b_vring_state(0, 1)))
+        };
+        cl.send(off.0, true, &off.1, &[]).map_err(|e| format!("round {round}: {e}"))?;
+        if !kick_first {
+            k.write(1).map_err(|e| e.to_string())?;
+        }
+        let (f, _) = cl.recv_frame().map_err(|e| format!("round {round}: {e}"))?;
+        if f.code != off.0 || spec::rd_u64(&f.body, 0) != 0 {
+            return Err(format!("round {round}: deactivating message refused"));
+        }
+        fx.barrier().map_err(|e| format!("round {round}: {e}"))?;
+        let mid = fx.be.events().len();
+        if cl.ack(on.0, &on.1, &[]).map_err(|e| format!("round {round}: {e}"))? != 0 {
+            return Err(format!("round {round}: activating message refused"));
+        }
+        fx.barrier().map_err(|e| format!("round {round}: {e}"))?;
+        let now = fx.be.events().len();
+        if mid > seen {
+            before_deactivation += 1;
+        }
+        if now == seen {
+            return Err(format!(
+                "round {round}: a guest kick raised right before {} was neither handled before the ring was deactivated nor retained: no event-handler call after the ring was activated again ({} of the earlier rounds were handled before the deactivation)",
+                if c.reset { "RESET_DEVICE" } else { "SET_VRING_ENABLE 0" },
+                before_deactivation
+            ));
+        }
+        seen = now;
+    }
+    ctx.evals(c.rounds as u64);
+    ctx.class_n("race_rounds", c.rounds as u64);
+    ctx.class_n("race_rounds_handled_before_deactivation", before_deactivation as u64);
+    ctx.nontrivial(&("race", c.rwlock, c.reset));
+    ctx.sample(|| json!({"race": c, "handled_before_deactivation": before_deactivation}));
+    drop(cl);
+    fx.teardown();
+    Ok(())
+}
+
+pub fn run_race(ctx: &mut Ctx, c: &RaceCase) -> Result<(), String> {
+    if c.rwlock {
+        run_race_generic::<VRw>(ctx, c)
+    } else {
+        run_race_generic::<VMutex>(ctx, c)
+    }
+}
+
 fn alphabet(nrings: u8) -> Vec<Op> {
     let mut a = vec![Op::SetFeatures { pf: true }, Op::SetFeatures { pf: false }, Op::Reset];
     for r in 0..nrings {
@@ -317,7 +411,7 @@ pub fn run(ctx: &mut Ctx) {
     ctx.rule = "control-message histories over {SET_FEATURES with/without PROTOCOL_FEATURES, SET_VRING_KICK new/no descriptor, SET_VRING_CALL, \
                 SET_VRING_ENABLE 0/1, GET_VRING_BASE, RESET_DEVICE, guest kick on the current descriptor} against a real daemon (fresh daemon per \
                 history, both vring kinds); after every step a double barrier on the worker, then per-ring handler invocations are compared \
-                with the reference ring model. Exhaustive over all words up to the stated depth on 1 ring, random on 2 rings. Non-trivial = a \
+                with the reference ring model. Exhaustive over all words up to the stated depth on 1 ring, random on 2 rings. Plus rounds of [kick, deactivate at once, activate] with an uncontrolled schedule: at least one handler call per round. Non-trivial = a \
                 kick while inactive followed by an activation, a descriptor replacement on a started ring, or disable/stop of an active ring; \
                 distinct op sequences."
         .into();
@@ -357,4 +451,9 @@ pub fn run(ctx: &mut Ctx) {
     let cases = ctx.tier.pick(1200u32, 60_000u32);
     let strat = (any::<bool>(), proptest::collection::vec(op_strategy(2), 1..=20)).prop_map(|(rwlock, ops)| Hist { rwlock, nrings: 2, ops });
     ctx.prop_check("random_2rings", cases, strat, |ctx, h| run_hist(ctx, h));
+
+    // kicks racing with a deactivation (uncontrolled schedule; every schedule must retain or handle the kick)
+    let rounds = ctx.tier.pick(1200u32, 20_000u32);
+    let races: Vec<RaceCase> = [(false, false), (true, false), (false, true), (true, true)].into_iter().map(|(rwlock, reset)| RaceCase { rwlock, reset, rounds }).collect();
+    ctx.enumerate("kick_races_deactivation", races, |ctx, c| run_race(ctx, c));
 }
